@@ -156,6 +156,12 @@ func runC20(c *Ctx) {
 			lastW, lastLower, raised := 0, 0, 0
 			for _, e := range p.Effects {
 				if e.Kind == "store" && isRecvField(e.Addr, valuesF) {
+					// a re-allocation that keeps length, content and order — `g := make([]T, len(Values), …);
+					// copy(g, Values); Values = g` with nothing else written into g — is not a write of the
+					// typestate: whatever the flag says about the order stays true
+					if c20ReallocCopy(p, e, valuesF) {
+						continue
+					}
 					lastW = e.Seq
 				}
 				if e.Kind == "store" && e.Addr.Op == "index" && isRecvField(e.Addr.Args[0], valuesF) {
@@ -436,63 +442,77 @@ func runC20(c *Ctx) {
 		c.R.undecided(r3, "anchors", "", "", "sketch anchors resolve", err.Error())
 	}
 	if f := c.P.DeclaredMethod(ds, "Merge"); c.mustFunc(r3, f, "(*Dataset).Merge") {
-		tc := newTermCtx(c.P)
-		readds := false
-		for _, b := range f.Blocks {
-			for _, in := range b.Instrs {
-				if call, ok := in.(*ssa.Call); ok {
-					t := tc.Of(call)
-					if isMethodCall(t, "Add") && len(t.Args) == 2 && t.Args[0].isRecv() && t.Args[1].Op == "index" && t.Args[1].Args[0].Op == "field" && t.Args[1].Args[0].Sym == valuesF && t.Args[1].Args[0].Args[0].isParam(1) && isRangeIndex(indexValueOf(t.Args[1])) {
-						readds = true
-					}
-				}
-			}
-		}
-		bulk := false
-		for _, b := range f.Blocks {
-			for _, in := range b.Instrs {
-				if st, ok := in.(*ssa.Store); ok {
-					at, vt := tc.Of(st.Addr), tc.Of(st.Val)
-					if isRecvField(at, valuesF) && vt.Op == "builtin" && vt.Sym == "append" {
-						src := vt.Args[1]
-						if src.Op == "slice" && src.Args[1].Op == "none" {
-							if h := src.Args[2]; h.Op == "none" || stripConv(h).Op == "builtin" && stripConv(h).Sym == "len" && stripConv(h).Args[0].Key() == src.Args[0].Key() {
-								src = src.Args[0]
+		// addsAll: fn adds every element of the slice recognised by isSrc to its receiver — Add in a full range
+		// loop, the same append written out, a bulk append, or delegation of the whole slice to a function the
+		// rules do not know (a new helper such as an AddMany), which is then held to the same forms
+		var addsAll func(fn *ssa.Function, isSrc func(t *Term) bool, depth int) (readds, bulk, perElem bool)
+		addsAll = func(fn *ssa.Function, isSrc func(t *Term) bool, depth int) (readds, bulk, perElem bool) {
+			tc := newTermCtx(c.P)
+			for _, b := range fn.Blocks {
+				for _, in := range b.Instrs {
+					if call, ok := in.(*ssa.Call); ok {
+						t := tc.Of(call)
+						if isMethodCall(t, "Add") && len(t.Args) == 2 && t.Args[0].isRecv() && t.Args[1].Op == "index" && isSrc(t.Args[1].Args[0]) && isRangeIndex(indexValueOf(t.Args[1])) {
+							readds = true
+						}
+						if g, ok := call.Common().Value.(*ssa.Function); ok && depth < 3 && inlineNewHelpers(g) && len(g.Blocks) > 0 && t.Op == "call" && len(t.Args) >= 2 && t.Args[0].isRecv() && recvNamed(g) == ds {
+							for k := 1; k < len(t.Args); k++ {
+								if isSrc(t.Args[k]) {
+									k := k
+									r, bk, pe := addsAll(g, func(x *Term) bool { return x.isParam(k) }, depth+1)
+									readds, bulk, perElem = readds || r, bulk || bk, perElem || pe
+								}
 							}
 						}
-						if src.Op == "field" && src.Sym == valuesF && src.Args[0].isParam(1) {
-							bulk = true
+					}
+				}
+			}
+			for _, b := range fn.Blocks {
+				for _, in := range b.Instrs {
+					if st, ok := in.(*ssa.Store); ok {
+						at, vt := tc.Of(st.Addr), tc.Of(st.Val)
+						if isRecvField(at, valuesF) && vt.Op == "builtin" && vt.Sym == "append" {
+							src := vt.Args[1]
+							if src.Op == "slice" && src.Args[1].Op == "none" {
+								if h := src.Args[2]; h.Op == "none" || stripConv(h).Op == "builtin" && stripConv(h).Sym == "len" && stripConv(h).Args[0].Key() == src.Args[0].Key() {
+									src = src.Args[0]
+								}
+							}
+							if isSrc(src) {
+								bulk = true
+							}
 						}
 					}
 				}
 			}
-		}
-		// third form: Add written out in the loop — `d.Values = append(d.Values, o.Values[i])` in a full range loop
-		// (the pairing of every append with a count increment and the lowering of the flag are C20-D3/D1 path rules)
-		perElem := false
-		fromArg := map[ssa.Value]bool{}
-		for _, b := range f.Blocks {
-			for _, in := range b.Instrs {
-				if st, ok := in.(*ssa.Store); ok {
-					if ia, ok := st.Addr.(*ssa.IndexAddr); ok {
-						vt := tc.Of(st.Val)
-						if _, isAlloc := ia.X.(*ssa.Alloc); isAlloc && vt.Op == "index" && vt.Args[0].Op == "field" && vt.Args[0].Sym == valuesF && vt.Args[0].Args[0].isParam(1) && isRangeIndex(indexValueOf(vt)) {
-							fromArg[ia.X] = true
+			// third form: Add written out in the loop — `d.Values = append(d.Values, o.Values[i])` in a full range loop
+			// (the pairing of every append with a count increment and the lowering of the flag are C20-D3/D1 path rules)
+			fromArg := map[ssa.Value]bool{}
+			for _, b := range fn.Blocks {
+				for _, in := range b.Instrs {
+					if st, ok := in.(*ssa.Store); ok {
+						if ia, ok := st.Addr.(*ssa.IndexAddr); ok {
+							vt := tc.Of(st.Val)
+							if _, isAlloc := ia.X.(*ssa.Alloc); isAlloc && vt.Op == "index" && isSrc(vt.Args[0]) && isRangeIndex(indexValueOf(vt)) {
+								fromArg[ia.X] = true
+							}
 						}
 					}
 				}
 			}
-		}
-		for _, b := range f.Blocks {
-			for _, in := range b.Instrs {
-				if st, ok := in.(*ssa.Store); ok {
-					at, vt := tc.Of(st.Addr), tc.Of(st.Val)
-					if isRecvField(at, valuesF) && vt.Op == "builtin" && vt.Sym == "append" && isRecvField(vt.Args[0], valuesF) && vt.Args[1].Op == "slice" && vt.Args[1].Args[0].V != nil && fromArg[vt.Args[1].Args[0].V] {
-						perElem = true
+			for _, b := range fn.Blocks {
+				for _, in := range b.Instrs {
+					if st, ok := in.(*ssa.Store); ok {
+						at, vt := tc.Of(st.Addr), tc.Of(st.Val)
+						if isRecvField(at, valuesF) && vt.Op == "builtin" && vt.Sym == "append" && isRecvField(vt.Args[0], valuesF) && vt.Args[1].Op == "slice" && vt.Args[1].Args[0].V != nil && fromArg[vt.Args[1].Args[0].V] {
+							perElem = true
+						}
 					}
 				}
 			}
+			return
 		}
+		readds, bulk, perElem := addsAll(f, func(t *Term) bool { return t.Op == "field" && t.Sym == valuesF && t.Args[0].isParam(1) }, 0)
 		c.R.check(readds || bulk || perElem, r3, shortFn(f)+"/re-adds-all", shortFn(f), c.fpos(f), "every element of the argument's Values is added (Add in a full range loop, the same append written out, or a bulk append)", fmt.Sprintf("per-element Add=%v per-element append=%v bulk=%v", readds, perElem, bulk))
 		mods := c.Mod.ModsRooted(f, 1)
 		c.R.check(len(mods) == 0, r3, shortFn(f)+"/argument-untouched", shortFn(f), c.fpos(f), "Merge does not write its argument", strings.Join(mods, " "))
@@ -533,4 +553,39 @@ func indexValueOf(t *Term) ssa.Value {
 		return nil
 	}
 	return t.Args[1].V
+}
+
+// c20ReallocCopy: the store puts into the values field a fresh slice of the same length into which the field's
+// current content was copied (and nothing else written) earlier on the path.
+func c20ReallocCopy(p *Path, st Effect, valuesF string) bool {
+	g := st.Val.unver()
+	if g.Op != "make" || len(g.Args) == 0 {
+		return false
+	}
+	l := stripConv(g.Args[0])
+	if !(l.Op == "builtin" && l.Sym == "len" && len(l.Args) == 1 && isRecvField(l.Args[0].unver(), valuesF)) {
+		return false
+	}
+	copied := false
+	for _, e := range p.Effects {
+		if e.Seq >= st.Seq {
+			break
+		}
+		switch e.Kind {
+		case "call":
+			t := e.Call
+			if t.Op == "builtin" && t.Sym == "copy" && len(t.Args) == 2 && sameVal(t.Args[0].unver(), g) && isRecvField(t.Args[1].unver(), valuesF) {
+				copied = true
+			}
+		case "store":
+			// any element store into g, or a write of the field between the copy and the store, spoils it
+			if e.Addr.Op == "index" && sameVal(e.Addr.Args[0].unver(), g) {
+				return false
+			}
+			if copied && (isRecvField(e.Addr, valuesF) || e.Addr.Op == "index" && isRecvField(e.Addr.Args[0], valuesF)) {
+				return false
+			}
+		}
+	}
+	return copied
 }
